@@ -19,15 +19,18 @@ for n in $names; do
   [ -f $d/patch.diff ] || continue
   id=$(echo $n | cut -d- -f1)
   git -C $WT checkout -q -- . 2>/dev/null
-  if ! git -C $WT apply $d/patch.diff 2>/dev/null; then
+  if ! git -C $WT apply $d/patch.diff 2>/dev/null && \
+     ! (cd $WT && patch -p1 -F3 -s --no-backup-if-mismatch < $d/patch.diff >/dev/null 2>&1); then
+    git -C $WT checkout -q -- . 2>/dev/null; git -C $WT clean -fdq 2>/dev/null
     echo "$n: patch does not apply at $head"
     printf '{"head": "%s", "applies": false}\n' $head > $d/revalidated.json
     continue
   fi
+  git -C $WT diff > $d/patch.diff      # keep the stored patch applicable to the current head
   suite=$(cd $WT && PYTHONPATH=$WT /venv/bin/python -m pytest -q -p no:cacheprovider tests 2>&1 | tail -1)
   with=$(cd $d && PYTHONPATH=$WT /venv/bin/python -m pytest -q -p no:cacheprovider demo_test.py 2>&1 | tail -1)
   out=$(VERIF_DEV_REPO=$WT PYTHONPATH=$WT ./check $id --tier quick 2>&1 | grep '^VIOLATION' | head -1)
-  git -C $WT apply -R $d/patch.diff
+  git -C $WT checkout -q -- . ; git -C $WT clean -fdq 2>/dev/null
   without=$(cd $d && PYTHONPATH=$WT /venv/bin/python -m pytest -q -p no:cacheprovider demo_test.py 2>&1 | tail -1)
   git -C $V checkout -- lean/Generated evidence 2>/dev/null
   echo "$n: suite[$suite] with[$with] without[$without] check[$out]"
